@@ -92,3 +92,106 @@ abbrev VecBuf (B : Type) := ℤ → B
 def comps (n : ℕ) : List ℤ := (List.range n).map (fun c => Int.ofNat c)
 
 end Sopht
+
+/-! ### frame lemmas (DESIGN §5.1): buffers that no call writes, and cells outside every call's
+region, are unchanged by a program -/
+
+namespace Sopht
+variable {B K : Type} [DecidableEq B]
+
+def Call2.written (c : Call2 B K) : List B := c.writes.map (·.1)
+def written2 (p : List (Call2 B K)) : List B := p.flatMap Call2.written
+
+theorem Call2.exec_foldl_other (ws : List (B × (Store2 B K → F2 K))) (r : Rect2) (s acc : Store2 B K) (b : B)
+    (h : b ∉ ws.map (·.1)) :
+    (ws.foldl (fun acc w => acc.set w.1 (applyK2 r (s w.1) (w.2 s))) acc) b = acc b := by
+  induction ws generalizing acc with
+  | nil => rfl
+  | cons w ws ih =>
+    simp only [List.map_cons, List.mem_cons, not_or] at h
+    simp only [List.foldl_cons]
+    rw [ih _ h.2, Store2.set_other _ _ _ _ h.1]
+
+theorem Call2.exec_other (c : Call2 B K) (s : Store2 B K) (b : B) (h : b ∉ c.written) :
+    c.exec s b = s b := Call2.exec_foldl_other c.writes c.region s s b h
+
+theorem exec2_other (p : List (Call2 B K)) (s : Store2 B K) (b : B) (h : b ∉ written2 p) :
+    exec2 p s b = s b := by
+  induction p generalizing s with
+  | nil => rfl
+  | cons c p ih =>
+    simp only [written2, List.flatMap_cons, List.mem_append, not_or] at h
+    rw [exec2_cons, ih _ h.2, Call2.exec_other c s b h.1]
+
+theorem Call2.exec_foldl_outside (ws : List (B × (Store2 B K → F2 K))) (r : Rect2) (s acc : Store2 B K) (b : B)
+    (i j : ℤ) (h : ¬ r.mem i j) (hacc : acc b i j = s b i j) :
+    (ws.foldl (fun acc w => acc.set w.1 (applyK2 r (s w.1) (w.2 s))) acc) b i j = s b i j := by
+  induction ws generalizing acc with
+  | nil => exact hacc
+  | cons w ws ih =>
+    simp only [List.foldl_cons]
+    apply ih
+    by_cases hb : b = w.1
+    · subst hb; simp [applyK2, h]
+    · rw [Store2.set_other _ _ _ _ hb]; exact hacc
+
+theorem Call2.exec_outside (c : Call2 B K) (s : Store2 B K) (b : B) (i j : ℤ) (h : ¬ c.region.mem i j) :
+    c.exec s b i j = s b i j := Call2.exec_foldl_outside c.writes c.region s s b i j h rfl
+
+/-- a cell outside the iteration region of every call keeps its value in every buffer -/
+theorem exec2_outside (p : List (Call2 B K)) (s : Store2 B K) (b : B) (i j : ℤ)
+    (h : ∀ c ∈ p, ¬ c.region.mem i j) : exec2 p s b i j = s b i j := by
+  induction p generalizing s with
+  | nil => rfl
+  | cons c p ih =>
+    rw [exec2_cons, ih _ (fun c' hc' => h c' (List.mem_cons_of_mem _ hc')),
+      Call2.exec_outside c s b i j (h c (List.mem_cons_self ..))]
+
+def Call3.written (c : Call3 B K) : List B := c.writes.map (·.1)
+def written3 (p : List (Call3 B K)) : List B := p.flatMap Call3.written
+
+theorem Call3.exec_foldl_other (ws : List (B × (Store3 B K → F3 K))) (r : Rect3) (s acc : Store3 B K) (b : B)
+    (h : b ∉ ws.map (·.1)) :
+    (ws.foldl (fun acc w => acc.set w.1 (applyK3 r (s w.1) (w.2 s))) acc) b = acc b := by
+  induction ws generalizing acc with
+  | nil => rfl
+  | cons w ws ih =>
+    simp only [List.map_cons, List.mem_cons, not_or] at h
+    simp only [List.foldl_cons]
+    rw [ih _ h.2, Store3.set_other _ _ _ _ h.1]
+
+theorem Call3.exec_other (c : Call3 B K) (s : Store3 B K) (b : B) (h : b ∉ c.written) :
+    c.exec s b = s b := Call3.exec_foldl_other c.writes c.region s s b h
+
+theorem exec3_other (p : List (Call3 B K)) (s : Store3 B K) (b : B) (h : b ∉ written3 p) :
+    exec3 p s b = s b := by
+  induction p generalizing s with
+  | nil => rfl
+  | cons c p ih =>
+    simp only [written3, List.flatMap_cons, List.mem_append, not_or] at h
+    rw [exec3_cons, ih _ h.2, Call3.exec_other c s b h.1]
+
+theorem Call3.exec_foldl_outside (ws : List (B × (Store3 B K → F3 K))) (r : Rect3) (s acc : Store3 B K) (b : B)
+    (i j k : ℤ) (h : ¬ r.mem i j k) (hacc : acc b i j k = s b i j k) :
+    (ws.foldl (fun acc w => acc.set w.1 (applyK3 r (s w.1) (w.2 s))) acc) b i j k = s b i j k := by
+  induction ws generalizing acc with
+  | nil => exact hacc
+  | cons w ws ih =>
+    simp only [List.foldl_cons]
+    apply ih
+    by_cases hb : b = w.1
+    · subst hb; simp [applyK3, h]
+    · rw [Store3.set_other _ _ _ _ hb]; exact hacc
+
+theorem Call3.exec_outside (c : Call3 B K) (s : Store3 B K) (b : B) (i j k : ℤ) (h : ¬ c.region.mem i j k) :
+    c.exec s b i j k = s b i j k := Call3.exec_foldl_outside c.writes c.region s s b i j k h rfl
+
+theorem exec3_outside (p : List (Call3 B K)) (s : Store3 B K) (b : B) (i j k : ℤ)
+    (h : ∀ c ∈ p, ¬ c.region.mem i j k) : exec3 p s b i j k = s b i j k := by
+  induction p generalizing s with
+  | nil => rfl
+  | cons c p ih =>
+    rw [exec3_cons, ih _ (fun c' hc' => h c' (List.mem_cons_of_mem _ hc')),
+      Call3.exec_outside c s b i j k (h c (List.mem_cons_self ..))]
+
+end Sopht
